@@ -31,37 +31,42 @@ def obligations(tier):
     obs = []
     B, I = 'bool', 'int'
     for f1 in range(5):
-        for pb in (False, True):
-            # H1: one changed part, any fault, then two fault-free requests on another (worker, database)
-            sym = {'w1': (I, 0, 1), 'd1': (I, 0, 1), 'p1': (I, 0, 5), 'k1': (I, 1, 3),
-                   'w2': (I, 0, 1), 'd2': (I, 0, 1)}
-            fixed = {'pre_b': pb, 'q1': 5, 'j1': 1, 'f1': f1, 'g1': 0, 'p2': 5, 'k2': 1, 'f2': 0, 'g2': 0, 'w3': 'w1', 'd3': 'd1'}
-            if f1 == 2:
-                sym['g1'] = (I, 0, 4)
-                del fixed['g1']
-            obs.append(_hist(f'H1.fault{f1}.preb{int(pb)}', sym, fixed,
-                             'recipe (worker0/db a synced' + (', worker1/db b synced' if pb else '') + '); request 1: any worker, '
-                             f'any db, one part changed (new / empty / reverted), fault kind {f1}; then fault-free requests on any '
-                             '(worker, db) and on the first one again', T, 'one change + fault'))
+        # H1: one changed part, any fault, then two fault-free requests on another (worker, database)
+        sym = {'pre_b': (B, 0, 0), 'w1': (I, 0, 1), 'd1': (I, 0, 1), 'p1': (I, 0, 5), 'k1': (I, 1, 3),
+               'w2': (I, 0, 1), 'd2': (I, 0, 1)}
+        fixed = {'q1': 5, 'j1': 1, 'f1': f1, 'g1': 0, 'p2': 5, 'k2': 1, 'f2': 0, 'g2': 0, 'w3': 'w1', 'd3': 'd1'}
+        if f1 == 2:
+            sym['g1'] = (I, 0, 4)
+            del fixed['g1']
+        obs.append(_hist(f'H1.fault{f1}', sym, fixed,
+                         'recipe (worker0/db a synced, optionally worker1/db b synced); request 1: any worker, '
+                         f'any db, one part changed (new / empty / reverted), fault kind {f1}; then fault-free requests on any '
+                         '(worker, db) and on the first one again', T, 'one change + fault'))
     # H2: two parts changed in one request, no fault
     for p1 in range(5):
-        for pb in (False, True):
-            sym = {'w1': (I, 0, 1), 'd1': (I, 0, 1), 'k1': (I, 1, 2), 'q1': (I, 0, 4), 'j1': (I, 1, 2),
-                   'w2': (I, 0, 1), 'd2': (I, 0, 1)}
-            fixed = {'pre_b': pb, 'p1': p1, 'f1': 0, 'g1': 0, 'p2': 5, 'k2': 1, 'f2': 0, 'g2': 0, 'w3': 'w1', 'd3': 'd1'}
-            obs.append(_hist(f'H2.two-parts.p{p1}.preb{int(pb)}', sym, fixed,
-                             f'part {p1} and any other part changed (new / empty) in one request; probes as in H1', T, 'two changes'))
+        sym = {'pre_b': (B, 0, 0), 'w1': (I, 0, 1), 'd1': (I, 0, 1), 'k1': (I, 1, 2), 'q1': (I, 0, 4), 'j1': (I, 1, 2),
+               'w2': (I, 0, 1), 'd2': (I, 0, 1)}
+        fixed = {'p1': p1, 'f1': 0, 'g1': 0, 'p2': 5, 'k2': 1, 'f2': 0, 'g2': 0, 'w3': 'w1', 'd3': 'd1'}
+        obs.append(_hist(f'H2.two-parts.p{p1}', sym, fixed,
+                         f'part {p1} and any other part changed (new / empty) in one request; probes as in H1', T, 'two changes'))
     # H3: change with a fault, then the caller goes back to the previous object (out-of-order requests)
     for f1 in (0, 1, 2):
-        for pb in (False, True):
-            sym = {'w1': (I, 0, 1), 'd1': (I, 0, 1), 'p1': (I, 0, 4), 'k1': (I, 1, 2), 'w2': (I, 0, 1)}
-            fixed = {'pre_b': pb, 'q1': 5, 'j1': 1, 'f1': f1, 'g1': 0, 'd2': 'd1', 'p2': 'p1', 'k2': 3, 'f2': 0, 'g2': 0, 'w3': 'w1', 'd3': 'd1'}
-            if f1 == 2:
-                sym['g1'] = (I, 0, 4)
-                del fixed['g1']
-            obs.append(_hist(f'H3.revert.fault{f1}.preb{int(pb)}', sym, fixed,
-                             f'request 1 changes a part (fault kind {f1}); request 2 carries the previous object again', T,
-                             'change, fault, revert'))
+        sym = {'pre_b': (B, 0, 0), 'w1': (I, 0, 1), 'd1': (I, 0, 1), 'p1': (I, 0, 4), 'k1': (I, 1, 2), 'w2': (I, 0, 1)}
+        fixed = {'q1': 5, 'j1': 1, 'f1': f1, 'g1': 0, 'd2': 'd1', 'p2': 'p1', 'k2': 3, 'f2': 0, 'g2': 0, 'w3': 'w1', 'd3': 'd1'}
+        if f1 == 2:
+            sym['g1'] = (I, 0, 4)
+            del fixed['g1']
+        obs.append(_hist(f'H3.revert.fault{f1}', sym, fixed,
+                         f'request 1 changes a part (fault kind {f1}); request 2 carries the previous object again', T,
+                         'change, fault, revert'))
+    # H5: two changing requests, the first with any fault, then a probe
+    for f1 in (range(5) if not quick else ()):
+        sym = {'w1': (I, 0, 1), 'd1': (I, 0, 1), 'p1': (I, 0, 4), 'k1': (I, 1, 3),
+               'w2': (I, 0, 1), 'd2': (I, 0, 1), 'p2': (I, 0, 4), 'k2': (I, 1, 3)}
+        fixed = {'pre_b': True, 'q1': 5, 'j1': 1, 'f1': f1, 'g1': 'p1', 'f2': 0, 'g2': 0, 'w3': 'w2', 'd3': 'd2'}
+        obs.append(_hist(f'H5.two-requests.fault{f1}', sym, fixed,
+                         f'both workers synced; request 1 changes one part (fault kind {f1}, sync fault on the changed part); '
+                         'request 2 changes one part on any (worker, db); probe', T, 'two changing requests'))
     if not quick:
         # H4: two faulty requests in a row
         for f1 in range(5):
